@@ -16,22 +16,31 @@ Ltac Zify.zify_post_hook ::= Z.div_mod_to_equations.
 Lemma len_enc_fx l : (length l <= length (enc_fx l))%nat.
 Proof. induction l as [|[w v] r IH]; [cbn; lia|]. cbn [enc_fx length]. rewrite app_length. pose proof (lenN_fw_enc w v) as E. unfold lenN, fw_len in E. destruct w; cbn [fw_n] in E; lia. Qed.
 
-Lemma enc_item_len it : (cfuel_item it <= length (enc_item it))%nat /\ (isz it <= length (enc_item it))%nat /\ (icnt it <= length (enc_item it))%nat.
+Lemma len_enc_ta ta : (length ta <= length (enc_ta ta))%nat.
 Proof.
-  revert it. fix IH 1. intros [d|bk k seg fa body].
+  induction ta as [|d r IH]; [cbn; lia|]. change (enc_ta (d :: r)) with (enc_const d ++ enc_ta r). rewrite app_length. unfold enc_const. rewrite app_length.
+  destruct (enc_op_nonempty (d_op d)) as (x & l & E). rewrite E. cbn [length]. lia.
+Qed.
+
+Lemma enc_item_len it : (cfuel_item it <= 2 * length (enc_item it))%nat /\ (isz it <= length (enc_item it))%nat /\ (icnt it <= length (enc_item it))%nat.
+Proof.
+  revert it. fix IH 1. intros [d|bk k seg fa body|lk seg fa ta].
   - cbn [cfuel_item isz icnt enc_item]. unfold enc_decl, enc_const. cbn [length]. rewrite !app_length. cbn [seg_bytes length].
     destruct (enc_op_nonempty (d_op d)) as (x & l & E). rewrite E. cbn [length]. lia.
   - rewrite cfuel_blk, isz_blk, icnt_blk, enc_blk. rewrite !app_length. cbn [seg_bytes length].
     destruct (enc_op_nonempty (bk_op bk)) as (x0 & l0 & E). rewrite E. cbn [length].
-    assert (H : (cfuel body <= length (enc_items body))%nat /\ (iszs body <= length (enc_items body))%nat /\ (icnts body <= length (enc_items body))%nat).
+    assert (H : (cfuel body <= 2 * length (enc_items body))%nat /\ (iszs body <= length (enc_items body))%nat /\ (icnts body <= length (enc_items body))%nat).
     { induction body as [|x t IHt]; [cbn; lia|]. destruct (IH x) as (A & B & C). destruct IHt as (A' & B' & C').
       rewrite cfuel_cons, iszs_cons, icnts_cons, enc_items_cons, app_length. lia. }
     assert (Hk : (1 <= length (enc_pkglen k (k + lenN (seg_bytes seg ++ enc_fx (bfx bk fa) ++ enc_items body))))%nat).
     { unfold enc_pkglen. destruct (k =? 1); cbn [length]; lia. }
     pose proof (len_enc_fx (bfx bk fa)). lia.
+  - rewrite cfuel_leaf, isz_leaf, icnt_leaf, enc_leaf. rewrite !app_length. cbn [seg_bytes length].
+    destruct (enc_op_nonempty (lk_op lk)) as (x0 & l0 & E). rewrite E. cbn [length].
+    pose proof (len_enc_fx (lfx lk fa)). pose proof (len_enc_ta ta). lia.
 Qed.
 
-Lemma enc_items_len l : (cfuel l <= length (enc_items l))%nat /\ (iszs l <= length (enc_items l))%nat /\ (icnts l <= length (enc_items l))%nat.
+Lemma enc_items_len l : (cfuel l <= 2 * length (enc_items l))%nat /\ (iszs l <= length (enc_items l))%nat /\ (icnts l <= length (enc_items l))%nat.
 Proof.
   induction l as [|x t IHt]; [cbn; lia|]. destruct (enc_item_len x) as (A & B & C). destruct IHt as (A' & B' & C').
   rewrite cfuel_cons, iszs_cons, icnts_cons, enc_items_cons, app_length. lia.
@@ -57,9 +66,18 @@ Proof.
   destruct w; cbn [fw_enc]; [constructor; [exact Hv|constructor]|apply gle_bytes_lt|apply gle_bytes_lt].
 Qed.
 
+Lemma enc_ta_bytes : forall ta, forallb cst_okb ta = true -> Forall (fun b => b < 256) (enc_ta ta).
+Proof.
+  induction ta as [|d r IH]; intros Hok; [constructor|]. cbn [forallb] in Hok. apply andb_prop in Hok. destruct Hok as [Hd Hok].
+  unfold cst_okb in Hd. apply andb_prop in Hd. destruct Hd as [Hc Hv].
+  change (enc_ta (d :: r)) with (enc_const d ++ enc_ta r). apply Forall_app. split; [|apply IH; exact Hok].
+  unfold enc_const. apply Forall_app. split; [|apply gle_bytes_lt].
+  destruct (is_constb_cases _ Hc) as [E|[E|[E|[E|[E|[E|E]]]]]]; rewrite E; repeat constructor.
+Qed.
+
 Lemma enc_items_bytes : forall l, forallb item_okb l = true -> Forall (fun b => b < 256) (enc_items l).
 Proof.
-  induction l as [|d rest IH|bk k seg fa body rest IHb IH] using items_ind; intros Hok; [constructor| |].
+  induction l as [|d rest IH|bk k seg fa body rest IHb IH|lk seg fa ta rest IH] using items_ind; intros Hok; [constructor| | |].
   - apply forallb_item_cons in Hok. destruct Hok as [Hd Hok]. cbn [item_okb] in Hd. apply andb_prop in Hd. destruct Hd as [Hd _].
     rewrite enc_items_cons. apply Forall_app. split; [apply enc_decl_bytes; exact Hd|apply IH; exact Hok].
   - apply forallb_item_cons in Hok. destruct Hok as [Hd Hok]. cbn [item_okb] in Hd.
@@ -68,12 +86,17 @@ Proof.
     rewrite enc_items_cons, enc_blk. apply Forall_app. split; [|apply IH; exact Hok].
     apply Forall_app. split; [destruct bk; repeat constructor|]. apply Forall_app. split; [apply enc_pkglen_bytes; exact Hpk|].
     apply Forall_app. split; [apply seg_bytes_lt|]. apply Forall_app. split; [apply enc_fx_bytes; exact Hfx|apply IHb; exact Hbody].
+  - apply forallb_item_cons in Hok. destruct Hok as [Hd Hok]. cbn [item_okb] in Hd.
+    apply andb_prop in Hd. destruct Hd as [Hx Hta]. apply andb_prop in Hx. destruct Hx as [Hx _]. apply andb_prop in Hx. destruct Hx as [_ Hfx].
+    rewrite enc_items_cons, enc_leaf. apply Forall_app. split; [|apply IH; exact Hok].
+    apply Forall_app. split; [destruct lk; repeat constructor|]. apply Forall_app. split; [apply seg_bytes_lt|].
+    apply Forall_app. split; [apply enc_fx_bytes; exact Hfx|apply enc_ta_bytes; exact Hta].
 Qed.
 
 (** ---- all slots of the range are nodes of [lay2] ---- *)
 Lemma lay2_nodes_all h tbl : forall l b off y, b <= y < b + N.of_nat (iszs l) -> In y (rnodesl (lay2 h tbl b off l)).
 Proof.
-  induction l as [|d rest IH|bk k seg fa body rest IHb IH] using items_ind; intros b off y Hy; [cbn in Hy; lia| |].
+  induction l as [|d rest IH|bk k seg fa body rest IHb IH|lk seg fa ta rest IH] using items_ind; intros b off y Hy; [cbn in Hy; lia| | |].
   - rewrite lay2_cons, rnodesl_app. rewrite iszs_cons in Hy. cbn [isz] in Hy. apply in_or_app.
     destruct (N.ltb_spec y (b + 3)) as [Hlt|Hge].
     + left. cbn [lay2_item rnodesl flat_map rnodes app In]. lia.
@@ -89,29 +112,87 @@ Proof.
       * right. unfold rnodesl. cbn [flat_map]. rewrite app_nil_r, rnodes_eq.
         destruct (N.eq_dec y (b + 2 + N.of_nat nf)) as [->|Hne2]; [left; reflexivity|right]. apply IHb. lia.
     + right. apply IH. rewrite isz_blk. fold nf. lia.
+  - rewrite lay2_cons, rnodesl_app. rewrite iszs_cons, isz_leaf in Hy. apply in_or_app.
+    destruct (N.ltb_spec y (b + N.of_nat (2 + length (lfx lk fa) + length ta))) as [Hlt|Hge].
+    + left. cbn [lay2_item]. unfold rnodesl. cbn [flat_map]. rewrite app_nil_r, rnodes_eq.
+      destruct (N.eq_dec y b) as [->|Hne]; [left; reflexivity|right].
+      apply leaf_row_nodes. rewrite app_length, len_lhd_pays, len_cst_pays. lia.
+    + right. apply IH. rewrite isz_leaf. lia.
 Qed.
 
 (** ---- the kinds of nodes of the final tree ---- *)
-Definition f1_ok (r : rose) : Prop :=
+Definition f1_ok (h tbl : N) (r : rose) : Prop :=
   match r with RN i a ks =>
     (exists nm, a = mkPay opScopeBlock 113 0 nm 0 0 None) \/
-    (exists bk off nm p po rest, a = blk_pay 1 bk off nm /\ ks = RN p (pth_pay 1 0 po) [] :: rest) \/
-    (exists off w v, a = num_pay 1 w off v /\ ks = []) \/
-    (exists off, a = sb_pay 1 off) \/
-    (exists off, a = pth_pay 1 0 off /\ ks = []) \/
-    (exists off nm p po c co d, a = nam_pay 1 off nm /\ ks = [RN p (pth_pay 1 0 po) []; RN c (cst_pay 1 co d) []] /\ is_constb (d_op d) = true) \/
-    (exists off d, a = cst_pay 1 off d /\ is_constb (d_op d) = true /\ ks = [])
+    (exists bk off nm p po rest, a = blk_pay h bk off nm /\ ks = RN p (pth_pay h tbl po) [] :: rest) \/
+    (exists off w v, a = num_pay h w off v /\ ks = []) \/
+    (exists off, a = sb_pay h off) \/
+    (exists off, a = pth_pay h tbl off /\ ks = []) \/
+    (exists off nm p po c co d, a = nam_pay h off nm /\ ks = [RN p (pth_pay h tbl po) []; RN c (cst_pay h co d) []] /\ is_constb (d_op d) = true) \/
+    (exists off d, a = cst_pay h off d /\ is_constb (d_op d) = true /\ ks = []) \/
+    (exists lk off nm p po rest, a = lf_pay h lk off nm /\ ks = RN p (pth_pay h tbl po) [] :: rest)
   end.
+(** for the objects of some table *)
+Definition f1_okE (r : rose) : Prop := exists h tbl, f1_ok h tbl r.
 
-Lemma fx_row_ok : forall l b off, Forall (rallr f1_ok) (leaf_row b (fx_pays 1 off l)).
+Lemma fx_row_ok h : forall l b off, Forall (rallr f1_okE) (leaf_row b (fx_pays h off l)).
+Proof.
+  induction l as [|[w v] r IH]; intros b off; [constructor|]. cbn [fx_pays leaf_row]. constructor; [|apply IH].
+  constructor; [|constructor]. exists h, 0. cbn [f1_ok]. right; right; left. do 3 eexists. split; reflexivity.
+Qed.
+
+Lemma cst_row_ok h : forall ta b off, forallb cst_okb ta = true -> Forall (rallr f1_okE) (leaf_row b (cst_pays h off ta)).
+Proof.
+  induction ta as [|d r IH]; intros b off Hok; [constructor|]. cbn [forallb] in Hok. apply andb_prop in Hok. destruct Hok as [Hd Hok].
+  unfold cst_okb in Hd. apply andb_prop in Hd. destruct Hd as [Hc _].
+  cbn [cst_pays leaf_row]. constructor; [|apply IH; exact Hok].
+  constructor; [|constructor]. exists h, 0. cbn [f1_ok]. do 6 right. left. do 2 eexists. split; [reflexivity|split; [exact Hc|reflexivity]].
+Qed.
+
+Lemma lay2_ok h tbl : forall l b off, forallb item_okb l = true -> Forall (rallr f1_okE) (lay2 h tbl b off l).
+Proof.
+  induction l as [|d rest IH|bk k seg fa body rest IHb IH|lk seg fa ta rest IH] using items_ind; intros b off Hok; [constructor| | |].
+  - apply forallb_item_cons in Hok. destruct Hok as [Hd Hok]. cbn [item_okb] in Hd. apply andb_prop in Hd. destruct Hd as [Hd _].
+    unfold decl_okb in Hd. apply andb_prop in Hd. destruct Hd as [Hd _]. apply andb_prop in Hd. destruct Hd as [_ Hc].
+    rewrite lay2_cons. apply Forall_app. split; [|apply IH; exact Hok]. cbn [lay2_item]. constructor; [|constructor].
+    constructor.
+    + exists h, tbl. cbn [f1_ok]. right; right; right; right; right; left. do 7 eexists. split; [reflexivity|split; [reflexivity|exact Hc]].
+    + constructor; [|constructor; [|constructor]].
+      * constructor; [|constructor]. exists h, tbl. cbn [f1_ok]. right; right; right; right; left. eexists. split; reflexivity.
+      * constructor; [|constructor]. exists h, tbl. cbn [f1_ok]. right; right; right; right; right; right; left. do 2 eexists. split; [reflexivity|split; [exact Hc|reflexivity]].
+  - apply forallb_item_cons in Hok. destruct Hok as [Hd Hok]. cbn [item_okb] in Hd. apply andb_prop in Hd. destruct Hd as [_ Hbody].
+    rewrite lay2_cons. apply Forall_app. split; [|apply IH; exact Hok]. rewrite lay2_blk. constructor; [|constructor].
+    unfold hd_pays. cbn [leaf_row app]. constructor.
+    + exists h, tbl. cbn [f1_ok]. right; left. do 6 eexists. split; reflexivity.
+    + constructor; [|apply Forall_app; split; [apply fx_row_ok|constructor; [|constructor]]].
+      * constructor; [|constructor]. exists h, tbl. cbn [f1_ok]. right; right; right; right; left. eexists. split; reflexivity.
+      * constructor; [|apply IHb; exact Hbody]. exists h, tbl. cbn [f1_ok]. right; right; right; left. eexists. reflexivity.
+  - apply forallb_item_cons in Hok. destruct Hok as [Hd Hok]. cbn [item_okb] in Hd. apply andb_prop in Hd. destruct Hd as [_ Hta].
+    rewrite lay2_cons. apply Forall_app. split; [|apply IH; exact Hok]. cbn [lay2_item]. constructor; [|constructor].
+    unfold lhd_pays. cbn [leaf_row app]. constructor.
+    + exists h, tbl. cbn [f1_ok]. do 7 right. do 6 eexists. split; reflexivity.
+    + constructor.
+      * constructor; [|constructor]. exists h, tbl. cbn [f1_ok]. right; right; right; right; left. eexists. split; reflexivity.
+      * rewrite leaf_row_app. apply Forall_app. split; [apply fx_row_ok|apply cst_row_ok; exact Hta].
+Qed.
+
+Lemma fx_row_okh h tbl : forall l b off, Forall (rallr (f1_ok h tbl)) (leaf_row b (fx_pays h off l)).
 Proof.
   induction l as [|[w v] r IH]; intros b off; [constructor|]. cbn [fx_pays leaf_row]. constructor; [|apply IH].
   constructor; [|constructor]. cbn [f1_ok]. right; right; left. do 3 eexists. split; reflexivity.
 Qed.
 
-Lemma lay2_ok : forall l b off, forallb item_okb l = true -> Forall (rallr f1_ok) (lay2 1 0 b off l).
+Lemma cst_row_okh h tbl : forall ta b off, forallb cst_okb ta = true -> Forall (rallr (f1_ok h tbl)) (leaf_row b (cst_pays h off ta)).
 Proof.
-  induction l as [|d rest IH|bk k seg fa body rest IHb IH] using items_ind; intros b off Hok; [constructor| |].
+  induction ta as [|d r IH]; intros b off Hok; [constructor|]. cbn [forallb] in Hok. apply andb_prop in Hok. destruct Hok as [Hd Hok].
+  unfold cst_okb in Hd. apply andb_prop in Hd. destruct Hd as [Hc _].
+  cbn [cst_pays leaf_row]. constructor; [|apply IH; exact Hok].
+  constructor; [|constructor]. cbn [f1_ok]. do 6 right. left. do 2 eexists. split; [reflexivity|split; [exact Hc|reflexivity]].
+Qed.
+
+Lemma lay2_okh h tbl : forall l b off, forallb item_okb l = true -> Forall (rallr (f1_ok h tbl)) (lay2 h tbl b off l).
+Proof.
+  induction l as [|d rest IH|bk k seg fa body rest IHb IH|lk seg fa ta rest IH] using items_ind; intros b off Hok; [constructor| | |].
   - apply forallb_item_cons in Hok. destruct Hok as [Hd Hok]. cbn [item_okb] in Hd. apply andb_prop in Hd. destruct Hd as [Hd _].
     unfold decl_okb in Hd. apply andb_prop in Hd. destruct Hd as [Hd _]. apply andb_prop in Hd. destruct Hd as [_ Hc].
     rewrite lay2_cons. apply Forall_app. split; [|apply IH; exact Hok]. cbn [lay2_item]. constructor; [|constructor].
@@ -119,39 +200,47 @@ Proof.
     + cbn [f1_ok]. right; right; right; right; right; left. do 7 eexists. split; [reflexivity|split; [reflexivity|exact Hc]].
     + constructor; [|constructor; [|constructor]].
       * constructor; [|constructor]. cbn [f1_ok]. right; right; right; right; left. eexists. split; reflexivity.
-      * constructor; [|constructor]. cbn [f1_ok]. right; right; right; right; right; right. do 2 eexists. split; [reflexivity|split; [exact Hc|reflexivity]].
+      * constructor; [|constructor]. cbn [f1_ok]. right; right; right; right; right; right; left. do 2 eexists. split; [reflexivity|split; [exact Hc|reflexivity]].
   - apply forallb_item_cons in Hok. destruct Hok as [Hd Hok]. cbn [item_okb] in Hd. apply andb_prop in Hd. destruct Hd as [_ Hbody].
     rewrite lay2_cons. apply Forall_app. split; [|apply IH; exact Hok]. rewrite lay2_blk. constructor; [|constructor].
     unfold hd_pays. cbn [leaf_row app]. constructor.
     + cbn [f1_ok]. right; left. do 6 eexists. split; reflexivity.
-    + constructor; [|apply Forall_app; split; [apply fx_row_ok|constructor; [|constructor]]].
+    + constructor; [|apply Forall_app; split; [apply fx_row_okh|constructor; [|constructor]]].
       * constructor; [|constructor]. cbn [f1_ok]. right; right; right; right; left. eexists. split; reflexivity.
       * constructor; [|apply IHb; exact Hbody]. cbn [f1_ok]. right; right; right; left. eexists. reflexivity.
+  - apply forallb_item_cons in Hok. destruct Hok as [Hd Hok]. cbn [item_okb] in Hd. apply andb_prop in Hd. destruct Hd as [_ Hta].
+    rewrite lay2_cons. apply Forall_app. split; [|apply IH; exact Hok]. cbn [lay2_item]. constructor; [|constructor].
+    unfold lhd_pays. cbn [leaf_row app]. constructor.
+    + cbn [f1_ok]. do 7 right. do 6 eexists. split; reflexivity.
+    + constructor.
+      * constructor; [|constructor]. cbn [f1_ok]. right; right; right; right; left. eexists. split; reflexivity.
+      * rewrite leaf_row_app. apply Forall_app. split; [apply fx_row_okh|apply cst_row_okh; exact Hta].
 Qed.
 
+
 (** ---- the local conditions of the walks, for every node kind ---- *)
-Lemma f1_conds (t : T) g pl R0 : Rep t g pl -> Desc g pl R0 -> rallr f1_ok R0 ->
+Lemma f1_conds (t : T) g pl R0 (H0 : N) : Rep t g pl -> Desc g pl R0 -> rallr f1_okE R0 ->
   (forall y a, pget pl y = Some a -> y_op a <> opFreed -> In y (rnodes R0)) ->
   forall y a, pget pl y = Some a -> y_op a <> opFreed ->
-  merge_ok 1 a /\ defer_ok 1 a /\ reloc_ok g pl 1 y a /\ nonnamed_ok g 1 y a /\ calls_ok g 1 y a.
+  merge_ok H0 a /\ defer_ok H0 a /\ reloc_ok g pl H0 y a /\ nonnamed_ok g H0 y a /\ calls_ok g H0 y a.
 Proof.
   intros H HD Hok Hall y a Hy Hly.
-  destruct (rallr_lookup g pl f1_ok R0 HD Hok y (Hall y a Hy Hly)) as (a' & ks & Dy & Oy).
+  destruct (rallr_lookup g pl f1_okE R0 HD Hok y (Hall y a Hy Hly)) as (a' & ks & Dy & (h & tbl & Oy)).
   destruct (Desc_inv _ _ _ _ _ Dy) as (Py & Ky & Dks). assert (a' = a) by congruence. subst a'.
-  assert (Hcalls : forall (P : Prop), P -> (negb (y_op a =? aml_pOpIntNamePathOrMethodCall) || negb (y_th a =? 1) = true) -> nonnamed_ok g 1 y a ->
-            P /\ nonnamed_ok g 1 y a /\ calls_ok g 1 y a) by (intros P HP Hc Hn; split; [exact HP|split; [exact Hn|split; assumption]]).
-  cbn [f1_ok] in Oy. destruct Oy as [(nm & ->)|[(bk & off & nm & p & po & rest & -> & ->)|[(off & w & v & -> & ->)|[(off & ->)|[(off & -> & ->)|[(off & nm & p & po & c & co & d & -> & -> & Hc)|(off & d & -> & Hc & ->)]]]]]].
+  assert (Hcalls : forall (P : Prop), P -> (negb (y_op a =? aml_pOpIntNamePathOrMethodCall) || negb (y_th a =? H0) = true) -> nonnamed_ok g H0 y a ->
+            P /\ nonnamed_ok g H0 y a /\ calls_ok g H0 y a) by (intros P HP Hc Hn; split; [exact HP|split; [exact Hn|split; assumption]]).
+  cbn [f1_ok] in Oy. destruct Oy as [(nm & ->)|[(bk & off & nm & p & po & rest & -> & ->)|[(off & w & v & -> & ->)|[(off & ->)|[(off & -> & ->)|[(off & nm & p & po & c & co & d & -> & -> & Hc)|[(off & d & -> & Hc & ->)|(lk & off & nm & p & po & rest & -> & ->)]]]]]]].
   - (* default scope *)
     split; [do 3 eexists; split; [reflexivity|right; reflexivity]|]. split; [do 3 eexists; split; reflexivity|].
     apply Hcalls; [|reflexivity|do 3 eexists; split; [reflexivity|left; reflexivity]].
-    do 3 eexists. split; [reflexivity|]. right; left. cbn [y_th y_op]. change (0 =? 1) with false. rewrite andb_false_r. reflexivity.
+    do 3 eexists. split; [reflexivity|]. right; left. cbn [y_th y_op]. change (negb (opScopeBlock =? aml_pOpIntScopeBlock)) with false. rewrite andb_false_r. reflexivity.
   - (* block-like named object *)
     destruct bk;
       (split; [do 3 eexists; split; [reflexivity|right; reflexivity]|]; split; [do 3 eexists; split; reflexivity|];
        apply Hcalls; [|reflexivity|do 3 eexists; split; [reflexivity|left; reflexivity]];
        do 3 eexists; split; [reflexivity|]; right; right;
        pose proof (Forall_inv Dks) as Dp; destruct (Desc_inv _ _ _ _ _ Dp) as (Pp & _ & _);
-       exists p, (pth_pay 1 0 po), 0, (mkSlice (Some po) 4); rewrite Ky; cbn [map ridx hd];
+       exists p, (pth_pay h tbl po), tbl, (mkSlice (Some po) 4); rewrite Ky; cbn [map ridx hd];
        split; [reflexivity|]; split; [exact Pp|]; split; [discriminate|]; split; [reflexivity|]; cbn [s_len]; cbv; discriminate).
   - (* fixed data argument *)
     unfold num_pay, merge_ok, defer_ok, reloc_ok, nonnamed_ok, calls_ok. cbn [y_info y_op y_th].
@@ -173,7 +262,7 @@ Proof.
     apply Hcalls; [|reflexivity|do 3 eexists; split; [reflexivity|left; reflexivity]].
     do 3 eexists. split; [reflexivity|]. right; right.
     pose proof (Forall_inv Dks) as Dp. destruct (Desc_inv _ _ _ _ _ Dp) as (Pp & _ & _).
-    exists p, (pth_pay 1 0 po), 0, (mkSlice (Some po) 4). rewrite Ky. cbn [map ridx hd].
+    exists p, (pth_pay h tbl po), tbl, (mkSlice (Some po) 4). rewrite Ky. cbn [map ridx hd].
     split; [reflexivity|]. split; [exact Pp|]. split; [discriminate|]. split; [reflexivity|]. cbn [s_len]. cbv. discriminate.
   - (* constant *)
     unfold cst_pay, merge_ok, defer_ok, reloc_ok, nonnamed_ok, calls_ok. cbn [y_info y_op y_th].
@@ -181,14 +270,22 @@ Proof.
       (split; [do 3 eexists; split; [reflexivity|right; reflexivity]|]; split; [do 3 eexists; split; reflexivity|];
        split; [do 3 eexists; split; [reflexivity|right; left; reflexivity]|];
        split; [do 3 eexists; split; [reflexivity|right; reflexivity]|]; split; [reflexivity|do 3 eexists; split; [reflexivity|right; reflexivity]]).
+  - (* leaf named object *)
+    destruct lk;
+      (split; [do 3 eexists; split; [reflexivity|right; reflexivity]|]; split; [do 3 eexists; split; reflexivity|];
+       apply Hcalls; [|reflexivity|do 3 eexists; split; [reflexivity|left; reflexivity]];
+       do 3 eexists; split; [reflexivity|]; right; right;
+       pose proof (Forall_inv Dks) as Dp; destruct (Desc_inv _ _ _ _ _ Dp) as (Pp & _ & _);
+       exists p, (pth_pay h tbl po), tbl, (mkSlice (Some po) 4); rewrite Ky; cbn [map ridx hd];
+       split; [reflexivity|]; split; [exact Pp|]; split; [discriminate|]; split; [reflexivity|]; cbn [s_len]; cbv; discriminate).
 Qed.
 
 (** ---- passes 3 to 6 on any tree that satisfies the local conditions ---- *)
-Lemma rest_generic fuel s g pl R0 a0 :
+Lemma rest_generic fuel s g pl R0 a0 (H0 : N) :
   Rep (p_tree s) g pl -> Desc g pl R0 -> ridx R0 = 0 -> pget pl 0 = Some a0 -> y_op a0 <> opFreed ->
   (forall y a, pget pl y = Some a -> y_op a <> opFreed ->
-     merge_ok 1 a /\ defer_ok 1 a /\ reloc_ok g pl 1 y a /\ nonnamed_ok g 1 y a /\ calls_ok g 1 y a) ->
-  p_handle s = 1 -> p_mergedScopes s = 0 -> p_relocatedObjects s = 0 -> (3 * rsize R0 + 1 <= fuel)%nat ->
+     merge_ok H0 a /\ defer_ok H0 a /\ reloc_ok g pl H0 y a /\ nonnamed_ok g H0 y a /\ calls_ok g H0 y a) ->
+  p_handle s = H0 -> p_mergedScopes s = 0 -> p_relocatedObjects s = 0 -> (3 * rsize R0 + 1 <= fuel)%nat ->
   wp False (rest_passes fuel) s (fun b s' => b = true /\ p_tree s' = p_tree s /\ p_tables s' = p_tables s).
 Proof.
   intros H2 HD Hr0 Hp0' Hl0 Hc Hh Hm Hr Hfuel. unfold rest_passes.
@@ -200,20 +297,20 @@ Proof.
   destruct fuel as [|F]; [lia|].
   apply wp_bind. rewrite resolve_loop_S.
   apply wp_bind. eapply wp_conseq.
-  { apply (proj1 (merge_all g pl 1 (fun y a A B => proj1 (Hc y a A B)) (S F)) 0 _ s3 H3 Hh Hm Hp0' Hl0 Hfw). }
+  { apply (proj1 (merge_all g pl H0 (fun y a A B => proj1 (Hc y a A B)) (S F)) 0 _ s3 H3 Hh Hm Hp0' Hl0 Hfw). }
   intros r s' (-> & ->). change (pres_eqb ROk RFailed) with false. cbv iota.
   apply wp_bind. eapply wp_conseq.
-  { apply (proj1 (reloc_all g pl 1 (fun y a A B => proj1 (proj2 (proj2 (Hc y a A B)))) (S F)) 0 _ s3 H3 Hh Hr Hp0' Hl0 Hfw). }
+  { apply (proj1 (reloc_all g pl H0 (fun y a A B => proj1 (proj2 (proj2 (Hc y a A B)))) (S F)) 0 _ s3 H3 Hh Hr Hp0' Hl0 Hfw). }
   intros r s' (-> & ->). change (pres_eqb ROk RFailed) with false. change (pres_eqb ROk ROk && pres_eqb ROk ROk) with true. cbv iota.
   apply wp_ret. change (negb (pres_eqb ROk ROk)) with false. cbv iota.
   apply wp_bind. eapply wp_conseq.
-  { apply (proj1 (defer_all g pl 1 (fun y a A B => proj1 (proj2 (Hc y a A B))) (S F)) (S F) 0 _ s3 H3 Hh Hp0' Hl0 Hfw). }
+  { apply (proj1 (defer_all g pl H0 (fun y a A B => proj1 (proj2 (Hc y a A B))) (S F)) (S F) 0 _ s3 H3 Hh Hp0' Hl0 Hfw). }
   intros r s' (-> & ->). change (negb (pres_eqb ROk ROk)) with false. cbv iota.
   apply wp_bind. eapply wp_conseq.
-  { apply (proj1 (calls_all g pl 1 (fun y a A B => proj2 (proj2 (proj2 (proj2 (Hc y a A B))))) (S F)) 0 _ s3 H3 Hh Hp0' Hl0 Hfwb). }
+  { apply (proj1 (calls_all g pl H0 (fun y a A B => proj2 (proj2 (proj2 (proj2 (Hc y a A B))))) (S F)) 0 _ s3 H3 Hh Hp0' Hl0 Hfwb). }
   intros r s' (-> & ->). change (negb (pres_eqb ROk ROk)) with false. cbv iota.
   apply wp_bind. eapply wp_conseq.
-  { apply (proj1 (nonnamed_all g pl 1 (fun y a A B => proj1 (proj2 (proj2 (proj2 (Hc y a A B))))) (S F)) 0 _ s3 H3 Hh Hp0' Hl0 Hfwb). }
+  { apply (proj1 (nonnamed_all g pl H0 (fun y a A B => proj1 (proj2 (proj2 (proj2 (Hc y a A B))))) (S F)) 0 _ s3 H3 Hh Hp0' Hl0 Hfwb). }
   intros r s' (-> & ->). change (negb (pres_eqb ROk ROk)) with false. cbv iota.
   apply wp_ret. split; [reflexivity|]. split; reflexivity.
 Qed.
@@ -228,20 +325,24 @@ Definition root_tree (its : list item) : rose :=
 
 Lemma lay2_rsizes h tbl : forall l b off, rsizes (lay2 h tbl b off l) = iszs l.
 Proof.
-  induction l as [|d rest IH|bk k seg fa body rest IHb IH] using items_ind; intros b off; [reflexivity| |].
+  induction l as [|d rest IH|bk k seg fa body rest IHb IH|lk seg fa ta rest IH] using items_ind; intros b off; [reflexivity| | |].
   - rewrite lay2_cons, rsizes_app, IH, iszs_cons. reflexivity.
   - rewrite lay2_cons, rsizes_app, IH, iszs_cons, lay2_blk, isz_blk. cbn [rsizes fold_right]. rewrite !rsize_eq.
     rewrite rsizes_app, leaf_row_rsizes, len_hd_pays. cbn [rsizes fold_right]. rewrite rsize_eq, IHb. lia.
+  - rewrite lay2_cons, rsizes_app, IH, iszs_cons, isz_leaf. cbn [lay2_item rsizes fold_right]. rewrite rsize_eq, leaf_row_rsizes, app_length, len_lhd_pays, len_cst_pays. lia.
 Qed.
 
 Lemma root_tree_size its : rsize (root_tree its) = (6 + iszs its)%nat.
 Proof. unfold root_tree. rewrite rsize_eq, rsizes_app, lay2_rsizes. reflexivity. Qed.
 
-Lemma root_tree_ok its : forallb item_okb its = true -> rallr f1_ok (root_tree its).
+Lemma dflt_okE i nm ks : f1_okE (RN i (mkPay opScopeBlock 113 0 nm 0 0 None) ks).
+Proof. exists 0, 0. cbn [f1_ok]. left. eexists. reflexivity. Qed.
+
+Lemma root_tree_ok its : forallb item_okb its = true -> rallr f1_okE (root_tree its).
 Proof.
-  intros Hok. unfold root_tree. constructor; [cbn [f1_ok]; left; eexists; reflexivity|].
+  intros Hok. unfold root_tree. constructor; [apply dflt_okE|].
   apply Forall_app. split; [|apply lay2_ok; exact Hok].
-  unfold dflt_leaves. repeat (constructor; [constructor; [cbn [f1_ok]; left; eexists; reflexivity|constructor]|]). constructor.
+  unfold dflt_leaves. repeat (constructor; [constructor; [apply dflt_okE|constructor]|]). constructor.
 Qed.
 
 Lemma root_tree_nodes its y : y < 6 + N.of_nat (iszs its) -> In y (rnodes (root_tree its)).
@@ -301,11 +402,12 @@ Proof.
 Qed.
 
 (** ---- ParseAML ---- *)
-Theorem parse_f1 its t0 :
+Theorem parse_f1x its t0 :
   forallb item_okb its = true -> lenN (enc_items its) < 0x10000000 -> Rep t0 g0c pl0c ->
   exists s' gF plF,
     parseAML t0 [] 1 (table_image (enc_items its)) = Ok (true, s') /\
-    Rep (p_tree s') gF plF /\ Desc gF plF (root_tree its) /\ p_tables s' = [table_image (enc_items its)].
+    Rep (p_tree s') gF plF /\ Desc gF plF (root_tree its) /\ p_tables s' = [table_image (enc_items its)] /\
+    N.of_nat (length plF) <= 6 + N.of_nat (iszs its).
 Proof.
   intros Hok Hsz H0.
   destruct (enc_items_len its) as (Hcf & Hsz' & Hcn).
@@ -319,11 +421,11 @@ Proof.
   { unfold fuel, parse_fuel. unfold lenN in *. change aml_sizeofSDTHeader with 36 in HlenD. lia. }
   clearbody fuel.
   assert (Hgoal : wp False (parseAML_body fuel) (init_state t0 [] 1 data) (fun b s' => b = true /\
-            exists gF plF, Rep (p_tree s') gF plF /\ Desc gF plF (root_tree its) /\ p_tables s' = [data])).
-  2:{ destruct (wp_run _ _ _ Hgoal) as (b & s' & E & -> & gF & plF & A & B & C). exists s', gF, plF. auto. }
+            exists gF plF, Rep (p_tree s') gF plF /\ Desc gF plF (root_tree its) /\ p_tables s' = [data] /\ N.of_nat (length plF) <= 6 + N.of_nat (iszs its))).
+  2:{ destruct (wp_run _ _ _ Hgoal) as (b & s' & E & -> & gF & plF & A & B & C & D). exists s', gF, plF. auto. }
   unfold wp. rewrite parseAML_body_eq.
   match goal with |- match ?m ?s with _ => _ end => change (wp False m s (fun b s' => b = true /\
-            exists gF plF, Rep (p_tree s') gF plF /\ Desc gF plF (root_tree its) /\ p_tables s' = [data])) end.
+            exists gF plF, Rep (p_tree s') gF plF /\ Desc gF plF (root_tree its) /\ p_tables s' = [data] /\ N.of_nat (length plF) <= 6 + N.of_nat (iszs its))) end.
   (* the first pass *)
   apply wp_bind. eapply wp_conseq.
   { eapply (first_f1 its fuel t0 g0c pl0c 1 hdr (scope_pay 0 [92; 0; 0; 0])); [exact Hhdr| | |exact H0|reflexivity| |reflexivity|discriminate|exact Hok|lia].
@@ -340,11 +442,20 @@ Proof.
   (* the remaining passes *)
   assert (Hp0 : pget pl2 0 = Some (scope_pay 0 [92; 0; 0; 0])) by (apply (Desc_inv _ _ _ _ _ D2)).
   eapply wp_conseq.
-  { apply (rest_generic fuel (with_tree (after_first t1 [] 1 data) t2) g2 pl2 (root_tree its) _ H2 D2 eq_refl Hp0 ltac:(discriminate)).
-    - apply (f1_conds t2 g2 pl2 (root_tree its) H2 D2 (root_tree_ok its Hok)). intros y a Hy _. apply root_tree_nodes. pose proof (pget_lt _ _ _ Hy). lia.
+  { apply (rest_generic fuel (with_tree (after_first t1 [] 1 data) t2) g2 pl2 (root_tree its) _ 1 H2 D2 eq_refl Hp0 ltac:(discriminate)).
+    - apply (f1_conds t2 g2 pl2 (root_tree its) 1 H2 D2 (root_tree_ok its Hok)). intros y a Hy _. apply root_tree_nodes. pose proof (pget_lt _ _ _ Hy). lia.
     - reflexivity.
     - reflexivity.
     - reflexivity.
     - rewrite root_tree_size. lia. }
-  intros b s3 (-> & Et & Etb). split; [reflexivity|]. exists g2, pl2. rewrite Et, Etb. split; [exact H2|]. split; [exact D2|reflexivity].
+  intros b s3 (-> & Et & Etb). split; [reflexivity|]. exists g2, pl2. rewrite Et, Etb. split; [exact H2|]. split; [exact D2|split; [reflexivity|exact Hl2]].
+Qed.
+
+Theorem parse_f1 its t0 :
+  forallb item_okb its = true -> lenN (enc_items its) < 0x10000000 -> Rep t0 g0c pl0c ->
+  exists s' gF plF,
+    parseAML t0 [] 1 (table_image (enc_items its)) = Ok (true, s') /\
+    Rep (p_tree s') gF plF /\ Desc gF plF (root_tree its) /\ p_tables s' = [table_image (enc_items its)].
+Proof.
+  intros Hok Hsz H0. destruct (parse_f1x its t0 Hok Hsz H0) as (s' & gF & plF & A & B & C & D & _). exists s', gF, plF. auto.
 Qed.
